@@ -59,6 +59,14 @@ func CheckC11(e *fw.Env, l *Lab) {
 			t.Receiver = OrbiterReceiver()
 		}
 		t.Seq = uint64(1<<41) + uint64(i)
+		// one case in four: the authority has raised the passthrough limit and the packet carries
+		// a passthrough payload
+		withPT := t.Spec != nil && e.R.Intn(4) == 0
+		if withPT {
+			t.Spec.Passthrough = make([]byte, 1+e.R.Intn(64))
+			e.R.Read(t.Spec.Passthrough)
+			hs.FeeCls += "+pt"
+		}
 		// deposits
 		deps := map[string]*big.Int{}
 		nd := 1 + e.R.Intn(4)
@@ -95,6 +103,10 @@ func CheckC11(e *fw.Env, l *Lab) {
 
 		ctxA, _ := l.Base.CacheContext()
 		ctxB, _ := l.Base.CacheContext()
+		if withPT {
+			UpdateParams(w, ctxA, 64)
+			UpdateParams(w, ctxB, 64)
+		}
 		okDeps := true
 		for d, v := range deps {
 			from := w.K("carol")
